@@ -507,7 +507,10 @@ class TTFont(object):
                 tableWriter = xmlWriter.XMLWriter(
                     tablePath, newlinestr=writer.newlinestr
                 )
-                tableWriter.begintag("ttFont", ttLibVersion=version)
+                if writeVersion:
+                    tableWriter.begintag("ttFont", ttLibVersion=version)
+                else:
+                    tableWriter.begintag("ttFont")
                 tableWriter.newline()
                 tableWriter.newline()
                 writer.simpletag(tagToXML(tag), src=os.path.basename(tablePath))
